@@ -5,7 +5,7 @@ What is extracted, and how (everything from the code that is imported *now*):
 * ``dataclasses.fields`` (name, init, default) of Rydberg / Raman / Microwave / DMM, RydbergEOM,
   Device / VirtualDevice, NoiseModel, SimConfig                                   -- reflection
 * the ``OPTIONAL_*`` tuples each ``_to_abstract_repr`` iterates over               -- ast + module globals
-* ``PARAMS_WITH_ABSTR_REPR``, the conditional emission of ``dmm_objects``          -- ast
+* ``PARAMS_WITH_ABSTR_REPR`` (live constant), whether ``dmm_objects`` is dropped when empty -- probing the encoder
 * the ``basis`` dispatch chain of ``_deserialize_channel``                         -- ast
 * literal keys subscripted / ``.get``-ed in the ``_deserialize_*`` functions       -- ast
 * what the live decoder does when a key is absent (fallback value or KeyError)     -- probing the live
@@ -430,29 +430,6 @@ def literal_keys(fn, var_names: set[str]) -> tuple[list[str], list[tuple[str, ob
     return sub, got
 
 
-def dmm_emitted_only_when_nonempty() -> bool:
-    """`if dmm_list: params["dmm_objects"] = dmm_list` in BaseDevice._to_abstract_repr."""
-    from pulser.devices._device_datacls import BaseDevice
-
-    tree = _func_ast(_unwrap(BaseDevice.__dict__["_to_abstract_repr"]))
-    cond = uncond = False
-    for node in ast.walk(tree):
-        if isinstance(node, ast.If) and isinstance(node.test, ast.Name):
-            for st in node.body:
-                if (isinstance(st, ast.Assign) and isinstance(st.targets[0], ast.Subscript)
-                        and isinstance(st.targets[0].slice, ast.Constant)
-                        and st.targets[0].slice.value == "dmm_objects"
-                        and isinstance(st.value, ast.Name) and st.value.id == node.test.id):
-                    cond = True
-    for st in tree.body:
-        if (isinstance(st, ast.Assign) and isinstance(st.targets[0], ast.Subscript)
-                and isinstance(st.targets[0].slice, ast.Constant) and st.targets[0].slice.value == "dmm_objects"):
-            uncond = True
-    if cond == uncond:
-        raise TableError("BaseDevice._to_abstract_repr: cannot tell how 'dmm_objects' is emitted")
-    return cond
-
-
 # --------------------------------------------------------------------------------------
 # probe objects
 # --------------------------------------------------------------------------------------
@@ -848,7 +825,6 @@ def build_tables() -> dict:
     with_abstr = list(ddc.PARAMS_WITH_ABSTR_REPR)
     if sorted(with_abstr) != ["channel_ids", "channel_objects", "dmm_objects"]:
         raise TableError(f"PARAMS_WITH_ABSTR_REPR changed: {with_abstr}")
-    dmm_cond = dmm_emitted_only_when_nonempty()
     devs = {}
     for cls, probe, virtual in ((Device, dev_p, False), (VirtualDevice, dev_v, True)):
         raw = {f[0]: f for f in _fields_of(cls)}
@@ -862,7 +838,10 @@ def build_tables() -> dict:
         opt_src = optional_tuples_of_encoder(cls)
         opt = [o for o in opt_src if o in names and o not in with_abstr]
         override = []
-        if "dmm_objects" in names and dmm_cond:
+        # `dmm_objects` is re-added after PARAMS_WITH_ABSTR_REPR were popped: always, or only when it is not
+        # empty?  Ask the live encoder of this class.
+        no_dmm = dataclasses.replace(probe_devices(virtual)[1], dmm_objects=())
+        if "dmm_objects" in names and "dmm_objects" not in raw_json(no_dmm):
             opt.append("dmm_objects")
             override.append(("dmm_objects", vlist([])))
         # fields the encoder never writes: not in any probe encoding although set
@@ -962,9 +941,7 @@ def self_test(tabs: dict) -> None:
     check(tabs["eom"], encs, "RydbergEOM._to_abstract_repr")
     for name, virtual in (("Device", False), ("VirtualDevice", True)):
         encs = [raw_json(d) for d in probe_devices(virtual)]
-        if virtual:
-            import dataclasses as _dc
-            encs.append(raw_json(_dc.replace(probe_devices(True)[1], dmm_objects=())))
+        encs.append(raw_json(dataclasses.replace(probe_devices(virtual)[1], dmm_objects=())))
         check(tabs["devices"][name], encs, f"{name}._to_abstract_repr")
     encs = [raw_json(probe_layout(s)) for s in (True, False)]
     check(tabs["layout"], encs, "RegisterLayout._to_abstract_repr")
